@@ -138,12 +138,27 @@ fn check_case(case: &Case, ctx: &mut Ctx) -> PResult {
     let width = (hi - lo) as u64;
     // new variables
     let old_ids: BTreeSet<u64> = inst0.decision_variables.iter().map(|v| v.id).collect();
-    if inst.decision_variables.len() < inst0.decision_variables.len() || inst.decision_variables[..inst0.decision_variables.len()] != inst0.decision_variables[..] {
-        return fail("C12/existing-variables-changed", format!("existing variables changed: {}", what()));
+    // the registered binaries = the variables whose id did not exist before (wherever they are put in the list); the
+    // others must be exactly the old ones
+    {
+        let mut kept: Vec<v1::DecisionVariable> = vec![];
+        let mut seen_old = BTreeSet::new();
+        for v in &inst.decision_variables {
+            if old_ids.contains(&v.id) && seen_old.insert(v.id) {
+                kept.push(v.clone());
+            }
+        }
+        let mut orig = inst0.decision_variables.clone();
+        kept.sort_by_key(|v| v.id);
+        orig.sort_by_key(|v| v.id);
+        if kept != orig {
+            return fail("C12/existing-variables-changed", format!("existing variables changed: {}", what()));
+        }
     }
-    let new_vars = &inst.decision_variables[inst0.decision_variables.len()..];
+    let mut first_old = BTreeSet::new();
+    let new_vars: Vec<v1::DecisionVariable> = inst.decision_variables.iter().filter(|v| !(old_ids.contains(&v.id) && first_old.insert(v.id))).cloned().collect();
     let mut new_ids = BTreeSet::new();
-    for v in new_vars {
+    for v in &new_vars {
         if old_ids.contains(&v.id) || !new_ids.insert(v.id) {
             return fail("C12/new-id-not-fresh", format!("new variable id {} is not fresh/unique: {}", v.id, what()));
         }
